@@ -43,10 +43,10 @@ def _def(fn, name):
 def intercept(ctx):
     f = F(ctx, "NumpyPickler.save")
     g = cfg_of(f)
-    t = [n for n in nodes_of_type(f, ast.If) if "type(obj) in" in unparse(n.test)]
+    t = [n for n in nodes_of_type(f, ast.If) if any(isinstance(c, ast.Compare) and isinstance(c.ops[0], (ast.In, ast.NotIn)) and unparse(c.left) == "type(obj)" for c in ast.walk(n.test))]
     ctx.need(t, "array interception test not found in NumpyPickler.save")
     test = t[0].test
-    cmp_ = [c for c in ast.walk(test) if isinstance(c, ast.Compare) and isinstance(c.ops[0], ast.In) and unparse(c.left) == "type(obj)"]
+    cmp_ = [c for c in ast.walk(test) if isinstance(c, ast.Compare) and isinstance(c.ops[0], (ast.In, ast.NotIn)) and unparse(c.left) == "type(obj)"]
     tys = sorted(unparse(e) for e in cmp_[0].comparators[0].elts)
     ctx.check(tys == ["self.np.matrix", "self.np.memmap", "self.np.ndarray"], t[0], "intercepts exactly type(obj) in (ndarray, matrix, memmap)", "intercepted types are %s" % tys)
     facts = cond_facts([(t[0], test, True)])
